@@ -220,6 +220,13 @@ func (l *List) M__getitem__(key Object) (Object, error) {
 
 func (l *List) M__setitem__(key, value Object) (Object, error) {
 	if slice, ok := key.(*Slice); ok {
+		// Read the whole value before touching the list or working out
+		// the indices: it may be the list itself, fail to iterate part
+		// way through, or change the length of the list as it is iterated
+		newItems, err := SequenceTuple(value)
+		if err != nil {
+			return nil, err
+		}
 		start, stop, step, slicelength, err := slice.GetIndices(len(l.Items))
 		if err != nil {
 			return nil, err
@@ -229,22 +236,12 @@ func (l *List) M__setitem__(key, value Object) (Object, error) {
 				// l[5:2] = v inserts before 5 and replaces nothing
 				stop = start
 			}
-			// Read the whole value before touching the list: it may
-			// be the list itself, or fail to iterate part way through
-			newItems, err := SequenceTuple(value)
-			if err != nil {
-				return nil, err
-			}
 			items := make([]Object, 0, len(l.Items)-(stop-start)+len(newItems))
 			items = append(items, l.Items[:start]...)
 			items = append(items, newItems...)
 			items = append(items, l.Items[stop:]...)
 			l.Items = items
 		} else {
-			newItems, err := SequenceTuple(value)
-			if err != nil {
-				return nil, err
-			}
 			if len(newItems) != slicelength {
 				return nil, ExceptionNewf(ValueError, "attempt to assign sequence of size %d to extended slice of size %d", len(newItems), slicelength)
 			}
